@@ -39,6 +39,7 @@ GLOBAL_REWRITES = [
     ('R5a', r'(?:crate|gmsol_model)::Error::(\w+)\(\s*"[^"]*"\s*,?\s*\)', r'E::\1', 'error payload dropped, variant kept'),
     ('R5f', r'(?:crate|gmsol_model)::Error::(\w+)\(\s*"[^"]*"\s*,\s*\w+\.to_string\(\)\s*,\s*\w+\.to_string\(\)\s*,?\s*\)', r'E::\1', 'error payload (message and two formatted values) dropped, variant kept'),
     ('R5e', r'crate::Error::(\w+)\(\s*crate::error::\w+\s*,?\s*\)', r'E::\1', 'error payload (message constant) dropped, variant kept'),
+    ('R5h', r'(?:crate|gmsol_model)::Error::(InsufficientFundsToPayForCosts|Liquidatable)\(\s*\w+\s*\)', r'E::\1', 'error payload (a local value: the step / the reason) dropped, variant kept'),
     ('R5b', r'(?:crate|gmsol_model)::Error::(\w+)\b', r'E::\1', 'error variant'),
     ('R8a', r'\|_\|', r'|_e|', 'closure parameter must be a variable in Verus'),
     ('R8b', r'\.ok_or_else\(\s*\|\|\s*', r'.ok_or(', 'ok_or_else(|| e) == ok_or(e) for a pure error value'),
@@ -348,6 +349,115 @@ def rewrite_closure0(body, unit, log):
     return body
 
 
+def _split_top(text, sep=','):
+    """split at `sep` outside (), [], {}, <> is NOT tracked (closure bodies contain comparisons)"""
+    out, depth, cur = [], 0, ''
+    i = 0
+    while i < len(text):
+        c = text[i]
+        if c == '|' and depth == 0 and cur.strip() == '':
+            j = text.index('|', i + 1)      # closure parameter list
+            cur += text[i:j + 1]
+            i = j + 1
+            continue
+        if c in '([{':
+            depth += 1
+        elif c in ')]}':
+            depth -= 1
+        if c == sep and depth == 0:
+            out.append(cur)
+            cur = ''
+        else:
+            cur += c
+        i += 1
+    if cur.strip():
+        out.append(cur)
+    return out
+
+
+def inline_helper_calls(body, unit, parts, repo, log):
+    """R22: a call `self.<helper>(ARG.., |p1, .., pn| BODY, ARG..)?;` of a private helper that takes a closure LITERAL is
+    inlined. The helper's body is extracted from /repo on every run (same file, `within` given by the directive); its
+    value parameters are bound by `let`, the call of its closure parameter `(f)(a1, .., an)?` is replaced by the closure
+    body with `let pi = ai;` in front (a closure parameter that receives `self` is renamed to `self`), its trailing `Ok(())`
+    is dropped and a `return Err(..)` inside it returns from the caller - which is what `?` on the call did.
+    Directive: //@ inline <helper> :: <within header> :: <closure parameter name>"""
+    helper, within, fparam = parts
+    item = extract.extract_fn(repo, unit['file'], within, helper)
+    hsig = item.sig
+    hbody = re.sub(r'//[^\n]*', '', item.body)
+    # parameters of the helper
+    pm = re.search(r'\((.*)\)\s*->', hsig, re.S)
+    if not pm:
+        raise Undecided(f"unit {unit['id']}: inline {helper}: cannot read its parameter list (lost anchor)")
+    params = [x.strip() for x in _split_top(pm.group(1)) if x.strip()]
+    names = []
+    for prm in params:
+        if re.match(r'&?\s*(mut\s+)?self$', prm):
+            continue
+        nm, _, ty = prm.partition(':')
+        names.append((nm.strip(), ty.strip()))
+    # the closure call inside the helper
+    cm = re.search(r'\(' + re.escape(fparam) + r'\)\(', hbody)
+    if not cm:
+        raise Undecided(f"unit {unit['id']}: inline {helper}: no call `({fparam})(..)` in its body (lost anchor)")
+    op = cm.end() - 1
+    cl = extract.match_brace(hbody, op, '(', ')')
+    cargs = [x.strip() for x in _split_top(hbody[op + 1:cl]) if x.strip()]
+    after = hbody[cl + 1:]
+    if not after.lstrip().startswith('?;'):
+        raise Undecided(f"unit {unit['id']}: inline {helper}: the closure call is not of the form `({fparam})(..)?;` (lost anchor)")
+    h_pre = hbody[:cm.start()]
+    h_post = after.lstrip()[2:]
+    if not re.search(r'Ok\(\(\)\)\s*$', h_post):
+        raise Undecided(f"unit {unit['id']}: inline {helper}: does not end in Ok(()) (lost anchor)")
+    h_post = re.sub(r'Ok\(\(\)\)\s*$', '', h_post)
+    n = 0
+    pat = re.compile(r'self\s*\.\s*' + re.escape(helper) + r'\s*\(')
+    while True:
+        m = pat.search(body)
+        if not m:
+            break
+        op = m.end() - 1
+        cl = extract.match_brace(body, op, '(', ')')
+        tail = body[cl + 1:]
+        if not tail.lstrip().startswith('?;'):
+            raise Undecided(f"unit {unit['id']}: inline {helper}: call is not followed by `?;` (outside the rule)")
+        args = [x.strip() for x in _split_top(re.sub(r'//[^\n]*', '', body[op + 1:cl])) if x.strip()]
+        if len(args) != len(names):
+            raise Undecided(f"unit {unit['id']}: inline {helper}: {len(args)} arguments for {len(names)} parameters")
+        lets = ''
+        closure = None
+        for (nm, ty), a in zip(names, args):
+            if nm == fparam:
+                closure = a
+            else:
+                lets += f'let {nm} = {a}; '
+        cm2 = re.match(r'\|([^|]*)\|\s*(.*)$', closure or '', re.S)
+        if not cm2:
+            raise Undecided(f"unit {unit['id']}: inline {helper}: the closure argument is not a closure literal (outside the rule)")
+        cps = [x.strip() for x in cm2.group(1).split(',') if x.strip()]
+        cbody = cm2.group(2).strip()
+        if len(cps) != len(cargs):
+            raise Undecided(f"unit {unit['id']}: inline {helper}: closure takes {len(cps)} parameters, the helper passes {len(cargs)}")
+        binds = ''
+        for cp, ca in zip(cps, cargs):
+            if ca == 'self':
+                if cp != '_':
+                    cbody = re.sub(r'\b' + re.escape(cp) + r'\b', 'self', cbody)
+            elif cp != '_':
+                binds += f'let {cp} = {ca}; '
+        rep = ('{ ' + lets + h_pre + ' let _r22: Result<(), E> = { ' + binds + cbody + ' }; _r22?; ' + h_post + ' }')
+        end = cl + 1 + (len(tail) - len(tail.lstrip())) + 2
+        body = body[:m.start()] + rep + body[end:]
+        n += 1
+    if n == 0:
+        raise Undecided(f"unit {unit['id']}: inline {helper}: no call found (lost anchor)")
+    log.append(f"R22 x{n} in {unit['id']}: call of `{helper}` with a closure literal inlined (helper body from {item.file}:{item.line}, hash {item.hash})")
+    return body
+
+
+
 def rewrite_body(body, unit, log):
     if re.search(r'\bfor\s+[^{;]*?\sin\s+\[', body):
         body = rewrite_for_array_literal(body, unit, log)
@@ -416,7 +526,17 @@ def rewrite_body(body, unit, log):
             body = body[:ls] + text + '\n' + body[ls:]
         else:
             # after: end of the statement = next ';' at depth 0 then end of line
-            le = body.find('\n', i)
+            depth, j = 0, i
+            while j < len(body):
+                ch = body[j]
+                if ch in '([{':
+                    depth += 1
+                elif ch in ')]}':
+                    depth -= 1
+                elif ch == ';' and depth <= 0:
+                    break
+                j += 1
+            le = body.find('\n', j)
             le = len(body) if le < 0 else le
             body = body[:le] + '\n' + text + body[le:]
     return body
@@ -475,6 +595,9 @@ def _parse_lines(lines, path, out):  # list of ('text', str) | ('prelude', width
                     u['closures'] = val.split()
                 elif key == 'closure0':
                     u['closure0'] = val.strip()
+                elif key == 'inline':
+                    parts = [x.strip() for x in val.split('::')]
+                    u.setdefault('inline', []).append(parts)
                 elif key == 'noreplay' or key == 'replay':
                     u[key] = val
                 else:
@@ -550,8 +673,14 @@ def generate(template_path, repo, out_path):
             item = extract.extract_fn(repo, u['file'], u['within'], u['fn'])
             if extract.norm(u['sig']) != item.sig_norm():
                 raise Undecided(f"unit {u['id']}: signature drift (lost anchor): repo has `{item.sig_norm()}`, contract written for `{extract.norm(u['sig'])}`")
-            body = rewrite_body(item.body, u, log)
+            ibody = item.body
+            for parts in u.get('inline', []):
+                ibody = inline_helper_calls(ibody, u, parts, repo, log)
+            body = rewrite_body(ibody, u, log)
             start = len(out_lines) + 1
+            # every unit is verified by its own solver instance: its verdict does not depend on what other functions of the
+            # file look like (an unrelated edit elsewhere must not flip a proof)
+            out_lines.append('#[verifier::spinoff_prover]')
             for h in u['header']:
                 out_lines.append(h)
             out_lines.append('{ // <<< body extracted from %s:%d (%s) hash %s' % (item.file, item.line, item.name, item.hash))
